@@ -307,6 +307,43 @@ fn mirror_head(mut r: asp::Rule, k: u8) -> asp::Rule {
         }
         return r;
     }
+    if (10..12).contains(&k) {
+        // 1 rule in 12: a comparison whose two sides are the very same term - partial (`X+1 = X+1` has no
+        // instance for a non-integer X) or many-valued (`1..2 != 1..2` holds: each side picks its own value)
+        let compound = |t: &asp::Term| -> asp::Term {
+            let simple = matches!(t, asp::Term::PrecomputedTerm(_) | asp::Term::Variable(_));
+            match (k, simple, has_interval(t)) {
+                (10, true, _) => binop(asp::BinaryOperator::Add, t.clone(), num(1)),
+                (11, _, false) => match t {
+                    asp::Term::PrecomputedTerm(asp::PrecomputedTerm::Numeral(_)) | asp::Term::Variable(_) | asp::Term::BinaryOperation { .. } | asp::Term::UnaryOperation { .. } => {
+                        binop(asp::BinaryOperator::Interval, t.clone(), binop(asp::BinaryOperator::Add, t.clone(), num(1)))
+                    }
+                    _ => binop(asp::BinaryOperator::Interval, num(1), num(2)),
+                },
+                _ => t.clone(),
+            }
+        };
+        let at = r.body.formulas.iter().position(|f| matches!(f, asp::AtomicFormula::Comparison(_)));
+        match at {
+            Some(i) => {
+                if let asp::AtomicFormula::Comparison(c) = &mut r.body.formulas[i] {
+                    let t = compound(&c.lhs);
+                    c.lhs = t.clone();
+                    c.rhs = t;
+                }
+            }
+            None => {
+                let base = r.variables().into_iter().next().map(|v| asp::Term::Variable(v)).unwrap_or_else(|| num(1));
+                let t = compound(&base);
+                r.body.formulas.push(asp::AtomicFormula::Comparison(asp::Comparison {
+                    relation: if k == 10 { asp::Relation::Equal } else { asp::Relation::NotEqual },
+                    lhs: t.clone(),
+                    rhs: t,
+                }));
+            }
+        }
+        return r;
+    }
     if (6..8).contains(&k) {
         // 1 rule in 12: a head with two syntactically identical arguments (`p(1..2, 1..2)`, `p(X+1, X+1)`)
         if let asp::Head::Basic(a) | asp::Head::Choice(a) = &mut r.head {
